@@ -1,5 +1,6 @@
 SPECIFICATION GSpec
 CONSTANTS
+  Starts <- StartsBase
   Dev <- DevAsIs
   MaxRuns = 2
   FlowDef <- FlowsLib
